@@ -1080,3 +1080,259 @@ func ruleP14(r *Run) {
 		r.Undec(key, fd.Pos(), "no Delete on the callback table found in Unsubscribe")
 	}
 }
+
+// ---------------------------------------------------------------------------------------------------
+// W13 a slice sized by a wire count is indexed by wire-independent positions only under a bound
+// U3  the aliasing converters are selected under type identity only
+// (U2 gains the clause: direct registrations happen in reference mode only)
+
+func init() {
+	register("W13", "a slice allocated with a length that comes from the wire (make([]T, count)) is indexed or sliced at a position that does NOT come from that count - a constant, the number of declared parameters - only where the position has been compared with the count or with len() of the slice, or by a loop variable that is bounded by them: the peer chooses the count, so `paramTypes[:n]` with n taken from the function's signature panics for a request that announces fewer arguments", 4, ruleW13)
+	register("U3", "GetConverter hands out the aliasing converters (ptrCopy, sliceCopy, mapCopy, arrayCopy, dataCopy: they copy headers or words through unsafe pointers) only under type identity: every disjunct of the condition that selects them contains an equality between two reflect types (src == dest, src.Elem() == dest, src == dest.Elem()); a looser test - same kind, same element type - lets a back-reference alias a map[int]string as a map[string]string, and ranging over the result dereferences integers as string headers", 3, ruleU3)
+}
+
+func ruleW13(r *Run) {
+	p := r.P
+	w := &w1{p: p, tainted: map[types.Object]bool{}, raw: map[types.Object]bool{}}
+	w.propagate()
+	n := 0
+	p.EachFunc(func(pkg *packages.Package, fd *ast.FuncDecl) {
+		info := pkg.TypesInfo
+		// slices made with a tainted length
+		sized := map[types.Object]types.Object{} // slice -> count variable
+		ast.Inspect(fd.Body, func(m ast.Node) bool {
+			as, ok := m.(*ast.AssignStmt)
+			if !ok || len(as.Lhs) != len(as.Rhs) {
+				return true
+			}
+			for i, rhs := range as.Rhs {
+				c, ok := ast.Unparen(rhs).(*ast.CallExpr)
+				if !ok || !IsBuiltin(info, c, "make") || len(c.Args) < 2 {
+					continue
+				}
+				if _, isSlice := info.TypeOf(c.Args[0]).Underlying().(*types.Slice); !isSlice {
+					continue
+				}
+				v := identObj(info, stripConv(info, c.Args[1]))
+				if v == nil || !w.tainted[v] {
+					continue
+				}
+				if o := identObj(info, as.Lhs[i]); o != nil {
+					sized[o] = v
+				}
+			}
+			return true
+		})
+		if len(sized) == 0 {
+			return
+		}
+		parents := parentMap(fd.Body)
+		mentions := func(e ast.Node, o types.Object) bool {
+			found := false
+			ast.Inspect(e, func(k ast.Node) bool {
+				if id, ok := k.(*ast.Ident); ok && info.Uses[id] == o {
+					found = true
+				}
+				return true
+			})
+			return found
+		}
+		k := 0
+		check := func(at ast.Node, sl types.Object, pos ast.Expr) {
+			cnt := sized[sl]
+			if pos == nil {
+				return
+			}
+			if _, isConst := intConst(info, pos); isConst {
+				if c, _ := intConst(info, pos); c == 0 {
+					// x[0] needs len > 0 as well, but x[:0] and lows of 0 are always fine: only index expressions reach here with 0
+				}
+			}
+			n++
+			k++
+			key := fmt.Sprintf("position %s in the wire-sized slice %s in %s #%d", types.ExprString(pos), sl.Name(), p.DeclName(fd), k)
+			// the position is derived from the count itself
+			if mentions(pos, cnt) {
+				r.Ok(key, at.Pos(), "derived from the count")
+				return
+			}
+			// a loop variable bounded by the count or len(slice), or a range over the slice
+			for _, id := range identsOf(pos) {
+				o := info.Uses[id]
+				if o == nil {
+					continue
+				}
+				for x := parents[at]; x != nil; x = parents[x] {
+					switch l := x.(type) {
+					case *ast.ForStmt:
+						if be, ok := l.Cond.(*ast.BinaryExpr); ok && (be.Op == token.LSS || be.Op == token.LEQ) && identObj(info, be.X) == o {
+							if mentions(be.Y, cnt) || mentions(be.Y, sl) {
+								r.Ok(key, at.Pos(), "loop variable bounded by the count")
+								return
+							}
+						}
+					case *ast.RangeStmt:
+						if identObj(info, l.X) == sl && l.Key != nil && identObj(info, l.Key) == o {
+							r.Ok(key, at.Pos(), "range over the slice")
+							return
+						}
+					}
+				}
+			}
+			// a dominating comparison between something in the position and the count / len(slice)
+			for _, fc := range factsWithSwitch(parents, at) {
+				be, ok := fc.e.(*ast.BinaryExpr)
+				if !ok {
+					continue
+				}
+				switch be.Op {
+				case token.LSS, token.LEQ, token.GTR, token.GEQ, token.EQL:
+				default:
+					continue
+				}
+				relatesPos := false
+				for _, id := range identsOf(pos) {
+					if o := info.Uses[id]; o != nil && (mentions(be.X, o) || mentions(be.Y, o)) {
+						relatesPos = true
+					}
+				}
+				if relatesPos && (mentions(be, cnt) || mentions(be, sl)) {
+					r.Ok(key, at.Pos(), "compared with the count on this path")
+					return
+				}
+			}
+			r.Viol(key, at.Pos(), fmt.Sprintf("%s was allocated with the length %s, which the peer chooses, and is indexed or sliced at `%s`, which does not depend on it and is not compared with it: a message that announces fewer elements makes this a slice-bounds / index-out-of-range panic in the decoding goroutine (outside the recover around the invocation)", sl.Name(), cnt.Name(), types.ExprString(pos)))
+		}
+		ast.Inspect(fd.Body, func(m ast.Node) bool {
+			switch x := m.(type) {
+			case *ast.IndexExpr:
+				if o := identObj(info, x.X); o != nil && sized[o] != nil {
+					check(x, o, x.Index)
+				}
+			case *ast.SliceExpr:
+				if o := identObj(info, x.X); o != nil && sized[o] != nil {
+					for _, b := range []ast.Expr{x.Low, x.High, x.Max} {
+						if b == nil {
+							continue
+						}
+						if c, ok := intConst(info, b); ok && c == 0 {
+							continue
+						}
+						check(x, o, b)
+					}
+				}
+			}
+			return true
+		})
+	})
+	if n == 0 {
+		r.Undec("positions in wire-sized slices", 0, "no indexed slice with a wire-controlled length found")
+	}
+}
+
+func identsOf(e ast.Expr) []*ast.Ident {
+	var out []*ast.Ident
+	ast.Inspect(e, func(k ast.Node) bool {
+		if id, ok := k.(*ast.Ident); ok {
+			out = append(out, id)
+		}
+		return true
+	})
+	return out
+}
+
+func ruleU3(r *Run) {
+	p := r.P
+	fd, pkg := p.DeclOf("io", "GetConverter")
+	if fd == nil {
+		r.Undec("io.GetConverter", 0, "not found")
+		return
+	}
+	info := pkg.TypesInfo
+	aliasing := map[string]bool{"ptrCopy": true, "sliceCopy": true, "mapCopy": true, "arrayCopy": true, "dataCopy": true}
+	parents := parentMap(fd.Body)
+	isTypeT := func(e ast.Expr) bool {
+		t := info.TypeOf(e)
+		return t != nil && (t.String() == "reflect.Type")
+	}
+	// DNF of a positive condition (bounded)
+	var dnf func(e ast.Expr) [][]ast.Expr
+	dnf = func(e ast.Expr) [][]ast.Expr {
+		e = ast.Unparen(e)
+		if be, ok := e.(*ast.BinaryExpr); ok {
+			switch be.Op {
+			case token.LOR:
+				return append(dnf(be.X), dnf(be.Y)...)
+			case token.LAND:
+				var out [][]ast.Expr
+				for _, a := range dnf(be.X) {
+					for _, b := range dnf(be.Y) {
+						if len(out) > 64 {
+							return out
+						}
+						out = append(out, append(append([]ast.Expr{}, a...), b...))
+					}
+				}
+				return out
+			}
+		}
+		return [][]ast.Expr{{e}}
+	}
+	n := 0
+	ast.Inspect(fd.Body, func(m ast.Node) bool {
+		ret, ok := m.(*ast.ReturnStmt)
+		if !ok || len(ret.Results) != 1 {
+			return true
+		}
+		o := identObj(info, ret.Results[0])
+		f, ok := o.(*types.Func)
+		if !ok || !aliasing[refName(f.Name())] {
+			return true
+		}
+		n++
+		key := fmt.Sprintf("selection of %s in io.GetConverter #%d", refName(f.Name()), n)
+		// enclosing if conditions (positive side); every disjunct of their conjunction needs a type identity
+		var conds []ast.Expr
+		var child ast.Node = ret
+		for x := parents[ret]; x != nil; child, x = x, parents[x] {
+			if ifs, ok := x.(*ast.IfStmt); ok && child == ast.Node(ifs.Body) {
+				conds = append(conds, ifs.Cond)
+			}
+		}
+		if len(conds) == 0 {
+			r.Viol(key, ret.Pos(), "the aliasing converter "+f.Name()+" is returned without any condition on the two types")
+			return true
+		}
+		disj := [][]ast.Expr{{}}
+		for _, c := range conds {
+			var next [][]ast.Expr
+			for _, a := range disj {
+				for _, b := range dnf(c) {
+					next = append(next, append(append([]ast.Expr{}, a...), b...))
+				}
+			}
+			disj = next
+		}
+		bad := ""
+		for _, conj := range disj {
+			hasIdentity := false
+			for _, e := range conj {
+				if be, ok := ast.Unparen(e).(*ast.BinaryExpr); ok && be.Op == token.EQL && isTypeT(be.X) && isTypeT(be.Y) {
+					hasIdentity = true
+				}
+			}
+			if !hasIdentity {
+				var parts []string
+				for _, e := range conj {
+					parts = append(parts, types.ExprString(e))
+				}
+				bad = strings.Join(parts, " && ")
+			}
+		}
+		r.Check(bad == "", key, ret.Pos(), "every disjunct compares two types for identity", "the aliasing converter "+f.Name()+" is also selected under `"+bad+"`, which contains no identity between the source and destination types: a back-reference to an item of a merely similar type (same kind, same element type, other key type) is taken over by copying words or headers - the destination then holds data of another layout, and using it reads integers as pointers")
+		return true
+	})
+	if n == 0 {
+		r.Undec("selection of the aliasing converters", fd.Pos(), "no return of ptrCopy/sliceCopy/mapCopy/arrayCopy/dataCopy found in GetConverter")
+	}
+}
